@@ -690,6 +690,13 @@ Proof.
   rewrite Hn. rewrite (dec_oid_bytes_rt _ _ Eb). reflexivity.
 Qed.
 
+Lemma bits_eqb_eq a : forall b, bits_eqb a b = true -> a = b.
+Proof.
+  induction a as [|x a IH]; intros [|y b]; cbn [bits_eqb]; try discriminate; [reflexivity|].
+  intros H. apply andb_prop in H. destruct H as [Hxy Hl]. f_equal; [|apply IH; exact Hl].
+  destruct x, y; cbn in Hxy; congruence.
+Qed.
+
 (** ** Composite types: SEQUENCE/SET, SEQUENCE OF, CHOICE, given the round
     trip of the nested codec (at the smaller fuel). *)
 Section CompositeRT.
@@ -1048,4 +1055,239 @@ Section CompositeRT.
                 intros Hb. cbn [map app is_some dec_adds negb tl]. apply (IH _ _ _ _ eq_refl Hb).
         * cbn [bind]. discriminate.
   Qed.
+
+  Lemma enc_adds_length adds data : forall processed,
+    enc_adds encT res adds data = Ok processed -> (length processed <= length adds)%nat.
+  Proof.
+    induction adds as [|[isgroup ms] adds IH]; intros processed; cbn [enc_adds].
+    - intros H. assert (processed = []) by congruence. subst. cbn. lia.
+    - match goal with |- match ?one with _ => _ end = _ -> _ => destruct one as [[bs np]|x] end.
+      + destruct (enc_adds encT res adds data) as [rest_p|]; [|discriminate]. cbn [bind]. intros H.
+        assert (processed = (if (0 <? length bs)%nat || np then Some bs else None) :: rest_p) by congruence.
+        subst. cbn [length]. specialize (IH _ eq_refl). lia.
+      + destruct x; try discriminate. intros H. assert (processed = []) by congruence. subst. cbn. lia.
+  Qed.
+
+  Lemma to_bits_9_len n : 65 <= n <= 127 -> to_bits 9 (Z.lor 256 n) = true :: false :: to_bits 7 n.
+  Proof.
+    intros H.
+    assert (Hs : bits_eqb (to_bits 9 (Z.lor 256 n)) (true :: false :: to_bits 7 n) = true).
+    { apply (sweep (fun n => bits_eqb (to_bits 9 (Z.lor 256 n)) (true :: false :: to_bits 7 n)) 65 63);
+        [vm_compute; reflexivity | lia]. }
+    apply bits_eqb_eq. exact Hs.
+  Qed.
+
+  Lemma read_small_len_rt n l rest :
+    1 <= n -> enc_small_len n = Ok l -> read_small_len (l ++ rest) = Ok (n, rest).
+  Proof.
+    intros Hn. unfold enc_small_len, read_small_len.
+    destruct (n <=? 64) eqn:E1.
+    - intros H. assert (l = to_bits 7 (n - 1)) by congruence. subst l.
+      rewrite to_bits_7_small by lia. cbn [app]. unfold rbind. cbn [read_bit negb].
+      rewrite read_uint_app by (change (2 ^ Z.of_nat 6) with 64; lia). unfold rret. f_equal. f_equal. lia.
+    - destruct (n <=? 127) eqn:E2; [|discriminate]. intros H.
+      assert (l = to_bits 9 (Z.lor 256 n)) by congruence. subst l.
+      rewrite to_bits_9_len by lia. cbn [app]. unfold rbind. cbn [read_bit negb].
+      apply read_uint_app. change (2 ^ Z.of_nat 7) with 128. lia.
+  Qed.
+
+  Lemma dec_additions_rt adds data abits rest :
+    (1 <= length adds)%nat ->
+    enc_additions encT res adds data = Ok (Some abits) ->
+    dec_additions decT adds (abits ++ rest) = Ok (norm_adds adds data, rest).
+  Proof.
+    intros Hne. unfold enc_additions, dec_additions.
+    destruct (enc_adds encT res adds data) as [processed|] eqn:Ep; [|discriminate]. cbn [bind].
+    destruct (negb (existsb is_some processed)); [discriminate|].
+    destruct (enc_small_len (Z.of_nat (length adds))) as [l|] eqn:El; [|discriminate]. cbn [bind].
+    destruct (enc_open_types processed) as [body|] eqn:Eb; [|discriminate]. cbn [bind]. intros H.
+    pose proof (enc_adds_length _ _ _ Ep) as Hlen.
+    set (pres := map is_some processed ++ repeat false (length adds - length processed)) in *.
+    assert (abits = l ++ pres ++ body) by congruence. subst abits.
+    assert (Hn1 : 1 <= Z.of_nat (length adds)) by lia.
+    unfold rbind at 1. rewrite <- app_assoc. rewrite (read_small_len_rt _ _ _ Hn1 El).
+    assert (Hpl : length pres = length adds).
+    { unfold pres. rewrite app_length, map_length, repeat_length. lia. }
+    unfold rbind at 1. rewrite Nat2Z.id. rewrite <- Hpl at 1. rewrite <- app_assoc. rewrite read_raw_app.
+    unfold pres. apply (dec_adds_rt _ _ _ _ _ _ Ep Eb).
+  Qed.
+
+  Lemma norm_adds_none adds data : forall processed,
+    enc_adds encT res adds data = Ok processed -> existsb is_some processed = false -> norm_adds adds data = [].
+  Proof.
+    induction adds as [|[isgroup ms] adds IH]; intros processed; cbn [enc_adds norm_adds]; [reflexivity|].
+    destruct isgroup.
+    - destruct (enc_group encT res ms data) as [bs|x]; cbn [bind]; [|reflexivity].
+      destruct (enc_adds encT res adds data) as [rest_p|]; [|discriminate]. cbn [bind]. intros H.
+      rewrite Bool.orb_false_r in H. destruct (0 <? length bs)%nat.
+      + assert (processed = Some bs :: rest_p) by congruence. subst. cbn. discriminate.
+      + assert (processed = None :: rest_p) by congruence. subst. cbn [existsb is_some orb]. intros He.
+        cbn [app]. apply (IH _ eq_refl He).
+    - destruct ms as [|m [|m' ms']]; try reflexivity.
+      destruct (enc_member encT res m data true) as [bs|x]; cbn [bind]; [|reflexivity].
+      destruct (enc_adds encT res adds data) as [rest_p|]; [|discriminate]. cbn [bind]. intros H.
+      destruct (lookup (m_name m) data) as [v|].
+      + rewrite Bool.orb_true_r in H. assert (processed = Some bs :: rest_p) by congruence. subst. cbn. discriminate.
+      + rewrite Bool.orb_false_r in H. destruct (0 <? length bs)%nat.
+        * assert (processed = Some bs :: rest_p) by congruence. subst. cbn. discriminate.
+        * assert (processed = None :: rest_p) by congruence. subst. cbn [existsb is_some orb]. intros He.
+          cbn [app]. apply (IH _ eq_refl He).
+  Qed.
+
+  Definition norm_seq (root : list (member_of ty)) (ext : option (list (addition_of ty)))
+             (data : list (string * value)) : value :=
+    VSeq (norm_members root data ++ match ext with Some adds => norm_adds adds data | None => [] end).
+
+  Lemma dec_seq_rt root ext data bs rest :
+    enc_seq encT res root ext (VSeq data) = Ok bs ->
+    dec_seq decT root ext (bs ++ rest) = Ok (norm_seq root ext data, rest).
+  Proof.
+    unfold enc_seq, dec_seq, norm_seq. destruct ext as [adds|].
+    - destruct (enc_root encT res root data) as [r|] eqn:Er; [|discriminate]. cbn [bind].
+      destruct adds as [|a adds'].
+      + intros H. assert (bs = false :: r) by congruence. subst bs. cbn [app]. unfold rbind at 1. cbn [read_bit].
+        unfold rbind. rewrite (dec_root_rt _ _ _ _ Er). cbn [norm_adds]. rewrite app_nil_r. reflexivity.
+      + destruct (enc_additions encT res (a :: adds') data) as [[abits|]|] eqn:Ea; [| |discriminate]; cbn [bind].
+        * intros H. assert (bs = true :: r ++ abits) by congruence. subst bs. cbn [app]. unfold rbind at 1. cbn [read_bit].
+          unfold rbind. rewrite <- app_assoc. rewrite (dec_root_rt _ _ _ _ Er).
+          assert (Hne : (1 <= length (a :: adds'))%nat) by (cbn [length]; lia).
+          rewrite (dec_additions_rt _ _ _ _ Hne Ea). reflexivity.
+        * intros H. assert (bs = false :: r) by congruence. subst bs. cbn [app]. unfold rbind at 1. cbn [read_bit].
+          unfold rbind. rewrite (dec_root_rt _ _ _ _ Er).
+          assert (Hn : norm_adds (a :: adds') data = []).
+          { unfold enc_additions in Ea. destruct (enc_adds encT res (a :: adds') data) as [processed|] eqn:Ep; [|discriminate].
+            cbn [bind] in Ea. destruct (existsb is_some processed) eqn:Ee; cbn [negb] in Ea.
+            - destruct (enc_small_len (Z.of_nat (length (a :: adds')))); [|discriminate]. cbn [bind] in Ea.
+              destruct (enc_open_types processed); discriminate.
+            - eapply norm_adds_none; eauto. }
+          rewrite Hn, app_nil_r. reflexivity.
+    - intros H. unfold rbind. rewrite (dec_root_rt _ _ _ _ H). rewrite app_nil_r. reflexivity.
+  Qed.
 End CompositeRT.
+
+(** ** The type-directed codec *)
+Section Main.
+  Variable numeric : bool.
+  Variable e : env.
+
+  (** The value a decoder returns for an encoded value: DEFAULT components
+      filled in (root and groups), named-bit strings stripped, bit/octet
+      strings reduced to the bits that are on the wire, OID arcs in the
+      canonical split; absent extension additions stay absent. *)
+  Fixpoint norm (fuel : nat) (t : ty) (v : value) {struct fuel} : value :=
+    match fuel with
+    | O => v
+    | S f =>
+      match t with
+      | TNull => VNone
+      | TBits named sz =>
+        match v with
+        | VBits b n => norm_bitstring (match named with Some _ => true | None => false end) sz b n
+        | _ => v
+        end
+      | TOctets _ => match v with VBytes b => VBytes (norm_bytes b) | _ => v end
+      | TOid => match v with VOid a => VOid (norm_oid a) | _ => v end
+      | TSeq _ root ext =>
+        match v with
+        | VSeq data => norm_seq (enc numeric e f) (norm f) (resolve e f) root ext data
+        | _ => v
+        end
+      | TSeqOf _ elem _ => match v with VList vs => VList (map (norm f elem) vs) | _ => v end
+      | TChoice root ext =>
+        match v with
+        | VChoice name x =>
+          match find_alt name root 0 with
+          | Some (_, m) => VChoice name (norm f (m_ty m) x)
+          | None =>
+            match ext with
+            | Some adds =>
+              match find_alt name adds 0 with
+              | Some (_, m) => VChoice name (norm f (m_ty m) x)
+              | None => v
+              end
+            | None => v
+            end
+          end
+        | _ => v
+        end
+      | TRef n => match lookup n e with Some t' => norm f t' v | None => v end
+      | TTag _ t' => norm f t' v
+      | _ => v
+      end
+    end.
+
+  Theorem enc_dec_rt : forall fuel t v bs,
+    enc numeric e fuel t v = Ok bs ->
+    forall rest, dec numeric e fuel t (bs ++ rest) = Ok (norm fuel t v, rest).
+  Proof.
+    induction fuel as [|f IH]; intros t v bs; [discriminate|].
+    destruct t; cbn [enc dec norm].
+    - (* BOOLEAN *)
+      destruct v; cbn [as_bool bind]; try discriminate. intros H rest.
+      assert (bs = [b]) by congruence. subst. reflexivity.
+    - (* NULL *)
+      intros H rest. assert (bs = []) by congruence. subst. reflexivity.
+    - (* INTEGER *)
+      destruct v; try discriminate. intros H rest. unfold rbind. rewrite (read_int_rt _ _ _ _ H). reflexivity.
+    - (* ENUMERATED *)
+      intros H rest. apply read_enum_rt. exact H.
+    - (* BIT STRING *)
+      destruct v; try discriminate. intros H rest. apply read_bitstring_rt. exact H.
+    - (* OCTET STRING *)
+      destruct v; try discriminate. intros H rest. apply read_octets_rt. exact H.
+    - (* character strings *)
+      destruct k; destruct v; try discriminate; intros H rest;
+        first [apply read_utf8_rt; exact H | apply read_kmstring_rt; exact H].
+    - (* OBJECT IDENTIFIER *)
+      destruct v; try discriminate. intros H rest. apply read_oid_rt. exact H.
+    - (* SEQUENCE / SET *)
+      destruct v; try discriminate. intros H rest.
+      apply (dec_seq_rt (enc numeric e f) (dec numeric e f) (norm f) (resolve e f) IH). exact H.
+    - (* SEQUENCE OF / SET OF *)
+      destruct v; try discriminate. intros H rest.
+      apply (dec_seqof_rt (enc numeric e f) (dec numeric e f) (norm f) (resolve e f) IH). exact H.
+    - (* CHOICE *)
+      destruct v; try discriminate. intros H rest.
+      destruct (find_alt alt root 0) as [[i m]|] eqn:Ef.
+      + apply (dec_choice_rt (enc numeric e f) (dec numeric e f) (norm f) IH root ext alt v bs rest m); [|exact H].
+        rewrite Ef. reflexivity.
+      + destruct ext as [adds|].
+        * destruct (find_alt alt adds 0) as [[i m]|] eqn:Ea.
+          -- apply (dec_choice_rt (enc numeric e f) (dec numeric e f) (norm f) IH root (Some adds) alt v bs rest m); [|exact H].
+             rewrite Ef, Ea. reflexivity.
+          -- unfold enc_choice in H. rewrite Ef, Ea in H. discriminate.
+        * unfold enc_choice, enc_choice_root in H. rewrite Ef in H. discriminate.
+    - (* reference *)
+      destruct (lookup name e) as [t'|]; [|discriminate]. intros H rest. apply IH. exact H.
+    - (* tagged *)
+      intros H rest. apply IH. exact H.
+  Qed.
+End Main.
+
+(** ** Octet level: uper.CompiledType.encode / decode *)
+Theorem uper_roundtrip numeric fuel e t v data :
+  uper_encode numeric fuel e t v = Ok data ->
+  forall tail, exists n,
+    uper_decode numeric fuel e t (data ++ tail) = Ok (norm numeric e fuel t v, n) /\
+    (n <= 8 * length data)%nat /\ (8 * length data < n + 8)%nat.
+Proof.
+  unfold uper_encode, uper_decode. destruct (enc numeric e fuel t v) as [bs|] eqn:E; [|discriminate].
+  cbn [bind]. intros H tail. assert (data = bits_to_bytes bs) by congruence. subst data.
+  rewrite bytes_to_bits_app, bytes_bits_roundtrip, <- app_assoc.
+  rewrite (enc_dec_rt numeric e fuel t v bs E).
+  exists (length bs). split.
+  - f_equal. f_equal. rewrite !app_length. lia.
+  - pose proof (bits_to_bytes_length bs) as Hl.
+    pose proof (Nat.mod_upper_bound (8 - length bs mod 8) 8 ltac:(lia)). lia.
+Qed.
+
+(** C16 for encoder outputs: every strict octet prefix of an encoding is a decode error. *)
+Theorem uper_truncation numeric fuel e t v data :
+  uper_encode numeric fuel e t v = Ok data ->
+  forall k, (k < length data)%nat ->
+    exists x, uper_decode numeric fuel e t (firstn k data) = Err x /\ is_decode_error x = true.
+Proof.
+  intros H k Hk. destruct (uper_roundtrip _ _ _ _ _ _ H []) as (n & Hd & Hle & Hgt).
+  rewrite app_nil_r in Hd.
+  apply (uper_decode_truncation _ _ _ _ _ _ _ Hd); [lia | exact Hk].
+Qed.
